@@ -452,3 +452,31 @@ theorem Rel2.ne_nil {α β : Type} {R : α → β → Prop} :
   | _ :: _, [], hr, _ => hr.elim
 
 end Lines
+
+namespace Lines
+open Str
+
+/-- a replacement whose matcher fires nowhere in the text leaves it unchanged -/
+theorem replace_id_of_no_match (m : Matcher Char) (r : List Char) :
+    ∀ t : List Char, (∀ s, s <:+ t → m s = none) → replaceAllWith m r t = t := by
+  intro t
+  induction t with
+  | nil => intro _; exact replaceAllWith_nil m r
+  | cons c cs ih =>
+    intro h
+    rw [replaceAllWith_cons_none (h (c :: cs) (List.suffix_refl _))]
+    rw [ih (fun s hs => h s (List.IsSuffix.trans hs (List.suffix_cons c cs)))]
+
+/-- no alternative of any step of the chain occurs anywhere in the line -/
+def untouchedBy (ss : List Step) (l : List Char) : Prop :=
+  ∀ st ∈ ss, ∀ s, s <:+ l → matchPats st.alts s = none
+
+theorem runSteps_id_of_untouched : ∀ (ss : List Step) (l : List Char), untouchedBy ss l → runSteps ss l = l
+  | [], l, _ => by simp [runSteps]
+  | st :: ss, l, h => by
+    have h1 : st.run l = l := replace_id_of_no_match _ _ l (h st (by simp))
+    have h2 := runSteps_id_of_untouched ss l (fun s' hs' => h s' (by simp [hs']))
+    simp only [runSteps, List.foldl_cons] at h2 ⊢
+    rw [h1]; exact h2
+
+end Lines
